@@ -243,4 +243,69 @@ theorem report_fields (cfg : Cfg) (σ : Sched) (hσ : σ.IsSched) (encodes : Rep
           · cases he
         · cases hrep
 
+/-! ## reports that are due but cannot be encoded (known finding F4)
+
+`chain` relates *states*: the state `b` that follows a reportable state `a` (with only unreportable
+states in between) starts where `a` ended.  A report is produced from a reportable state only if the
+report codec encodes it (`encodes` in `reports`); every real codec refuses a report that lacks a value.
+The validity start advances all the same — `adv` only asks whether the state was reportable. -/
+
+/-- **chain over produced reports, partial.**  If a report for `c` is produced from state `a`, the next
+    one from state `b`, and *no state in between was due for `c`*, the second report starts where the
+    first one ended.  What is missing for the full statement of the property ("consecutive reports of
+    the channel"): states in between that were due but whose report was not encoded — see
+    `due_but_unencodable_round_moves_the_start`, `window_lost_witness`. -/
+theorem chain_reports_partial (cfg : Cfg) (σ : Sched) (hσ : σ.IsSched) (encodes : Report → Nat → Bool)
+    (sa sb : Nat) (a b : Outcome) (mid : List Outcome) (ra rb : Report) (fa fb : Nat) (sta stb : String)
+    (hra : ReportOut.channel ra fa sta ∈ reports cfg σ encodes sa a)
+    (hrb : ReportOut.channel rb fb stb ∈ reports cfg σ encodes sb b)
+    (hc : rb.channelID = ra.channelID)
+    (hcons : Consecutive (fun x y => ∃ va, x.va.get? ra.channelID = some va ∧
+      y.va.get? ra.channelID = some (adv cfg ra.channelID va x)) (a :: (mid ++ [b])))
+    (hmid : ∀ m ∈ mid, isReportable m ra.channelID cfg.version cfg.minInterval ≠ none) :
+    rb.validAfter = truncVA cfg ra.obsTs := by
+  obtain ⟨har, _, hats⟩ := report_fields cfg σ hσ encodes sa a ra fa sta hra
+  obtain ⟨_, hbva, _⟩ := report_fields cfg σ hσ encodes sb b rb fb stb hrb
+  have := chain cfg ra.channelID a b mid hcons har hmid
+  rw [hc, this] at hbva
+  rw [hats]
+  exact (Option.some.inj hbva).symm
+
+/-- a state that is due for `c` moves the validity start of the next state to its own observation
+    timestamp — whether or not a report came out of it -/
+theorem due_but_unencodable_round_moves_the_start (cfg : Cfg) (c : Nat) (m b : Outcome)
+    (hstep : ∃ va, m.va.get? c = some va ∧ b.va.get? c = some (adv cfg c va m))
+    (hm : isReportable m c cfg.version cfg.minInterval = none) :
+    b.va.get? c = some (truncVA cfg m.ts) := by
+  obtain ⟨va, _, hb⟩ := hstep
+  rw [hb, adv_reportable cfg c va m hm]
+
+/-- and no report comes out of a due state whose report the codec refuses -/
+theorem no_report_when_codec_refuses (cfg : Cfg) (seqNr : Nat) (o : Outcome) (cid : Nat) :
+    channelReport cfg (fun _ _ => false) seqNr o cid = none := by
+  unfold channelReport
+  split <;> simp
+
+/-- **F4 witness.**  Protocol version 1, a JSON channel over streams 1 and 2, three consecutive outcomes
+    at t = 10, 20, 30 related by `adv`; at t = 20 the channel is due but there is no aggregate for stream 2.
+    With a codec that refuses a report lacking a value the produced reports are `(5, 10]` and `(20, 30]`:
+    the second does not start where the first ended, and `(10, 20]` is never reported. -/
+theorem window_lost_witness :
+    let cfg : Cfg := ⟨1, 1, 1, false⟩
+    let cd : ChanDef := ⟨2, [⟨1, 1⟩, ⟨2, 1⟩], []⟩
+    let v : SV := .dec ⟨1, 0⟩
+    let a : Outcome := { stage := stageProduction, ts := 10, defs := [(1, cd)], va := [(1, 5)], aggs := [((1, 1), v), ((2, 1), v)] }
+    let m : Outcome := { stage := stageProduction, ts := 20, defs := [(1, cd)], va := [(1, 10)], aggs := [((1, 1), v)] }
+    let b : Outcome := { stage := stageProduction, ts := 30, defs := [(1, cd)], va := [(1, 20)], aggs := [((1, 1), v), ((2, 1), v)] }
+    let strict : Report → Nat → Bool := fun r _ => r.values.all Option.isSome
+    -- the three outcomes are consecutive states of the validity-start recurrence
+    (m.va.get? 1 = some (adv cfg 1 5 a) ∧ b.va.get? 1 = some (adv cfg 1 10 m))
+    -- the channel is due in all three
+    ∧ isReportable a 1 1 1 = none ∧ isReportable m 1 1 1 = none ∧ isReportable b 1 1 1 = none
+    -- reports: one from `a`, none from `m`, one from `b` that starts at 20, not at 10
+    ∧ (channelReport cfg strict 2 a 1).map (fun | .channel r _ _ => (r.validAfter, r.obsTs) | _ => (0, 0)) = some (5, 10)
+    ∧ channelReport cfg strict 3 m 1 = none
+    ∧ (channelReport cfg strict 4 b 1).map (fun | .channel r _ _ => (r.validAfter, r.obsTs) | _ => (0, 0)) = some (20, 30) := by
+  decide
+
 end DSV.Props.C03
